@@ -186,6 +186,65 @@ def main():
     for i, w in bbad2[:2]:
         ck.fail("C01-bound", "under max_selection_exposure=%s (several orders per selection, exposure read at every update) the strategy's worst-case loss on a selection reached %.2f" % (scs2[i]["_limit"] / 100, w),
                 {"scenario": scs2[i], "worst_seen": w, "how": "harness/impl/simlib.py on the real FlumineSimulation"})
+    # ---- the acknowledgement discipline as the DEFAULT max_live_trade_count=1 provides it: a completed trade re-used for a further order while another
+    #      trade places on the same selection in the same call (the second must be refused while the first is unacknowledged); and a transaction sent
+    #      in instalments (explicit execute() between requests): every accepted order reaches the exchange once
+    P = simgen.TICKS_BP
+    scs3 = []
+    for _ in range(60 if thorough else 20):
+        i0 = rng.randrange(6, 20)
+        side = rng.choice(["BACK", "LAY"])
+        t0 = 1_700_000_000_000
+        def rn(sel):
+            return {"id": sel, "status": "ACTIVE", "adj": 1000, "atb": [[P[i0], 100000]], "atl": [[P[i0 + 1], 100000]], "trd": []}
+        ups = [{"pt": t0 + 400 * k, "status": "OPEN", "version": 1, "runners": [rn(1), rn(2)]} for k in range(10)]
+        price = P[i0] if side == "BACK" else P[i0 + 1]          # crosses: matched in full on arrival
+        lim = rng.choice([1000, 1500])
+        first, big = rng.choice([200, 300]), lim - rng.choice([200, 300])
+        L = lambda sz: {"t": "L", "p": price, "s": sz, "pt": "LAPSE", "tif": None, "mf": None}
+        if rng.random() < 0.5:
+            script = [{"s": 0, "m": 0, "u": 0, "acts": [["place", 1, 1, side, L(first), {"mv": None, "trade": "T1"}]]},
+                      {"s": 0, "m": 0, "u": 3, "acts": [["place", 2, 1, side, L(big), {"mv": None, "trade": "T1"}], ["place", 3, 1, side, L(big), {"mv": None}]]}]
+        else:
+            script = [{"s": 0, "m": 0, "u": 1, "acts": [["txn_begin"], ["place", 1, 1, side, L(big), {"mv": None}], ["txn_exec"], ["place", 2, 2, side, L(big), {"mv": None}], ["txn_end"]]},
+                      {"s": 0, "m": 0, "u": 4, "acts": [["txn_begin"], ["place", 3, 2, side, L(first), {"mv": None}], ["txn_exec"], ["txn_exec"], ["txn_end"]]}]
+        scs3.append({"config": {"place_latency": 0.12, "cancel_latency": 0.17, "update_latency": 0.15, "replace_latency": 0.28, "isolation": True},
+                     "clients": [{"bpe": True, "full_match": False, "limit": None, "min_val": False}],
+                     "strategies": [{"name": "s0", "client": 0, "max_sel": lim / 100, "max_order": lim / 100, "max_live": 1, "max_trade": 10 ** 6, "multi": True}],
+                     "markets": [{"id": "1.100000001", "event": "20000001", "group": False, "type": "WIN", "bsp": False, "persist": True, "winners": 1, "updates": ups}],
+                     "script": script, "_limit": lim})
+    outs4 = run_impl_parallel("simlib", [{"scenarios": [simgen.to_impl({k: v for k, v in s.items() if k != "_limit"}) for s in ch], "observe": "all"} for ch in chunked(scs3, 10)], timeout=3600)
+    impl4 = [r for o in outs4 for r in o["out"]]
+    # worst-case loss per selection (pending orders included) at every strategy call and at the end of the run
+    bbad3 = []
+    for i, (sc, io) in enumerate(zip(scs3, impl4)):
+        lim = sc["_limit"] / 100
+        for obs_orders in [ob["orders"] for ob in io["obs"]] + [io["final"]]:
+            per_sel = {}
+            for o in obs_orders:
+                if o["status"] in ("Violation", None):
+                    continue
+                per_sel.setdefault(o["sel"], []).append(o)
+            for sel, os_ in per_sel.items():
+                win = lose = 0.0
+                for o in os_:
+                    sgn = 1 if o["side"] == "BACK" else -1
+                    for f in o["frags"]:
+                        win += sgn * (f[1] - 1) * f[2]; lose += -sgn * f[2]
+                    if not o["complete"] and o["remaining"] > 0:
+                        w, l = sgn * (o["price"] - 1) * o["remaining"], -sgn * o["remaining"]
+                        win += min(0, w); lose += min(0, l)
+                if -min(win, lose) > lim + 0.05:
+                    bbad3.append((i, -min(win, lose))); break
+            else:
+                continue
+            break
+    ck.family("reused_trades_and_transactions_in_instalments", len(scs3), len(scs3), [], sorted({i for i, _ in bbad3}),
+              dist={"placements_accepted": sum(1 for io in impl4 for r in io["requests"] if r[3] == "place" and r[5] is True),
+                    "placements_refused": sum(1 for io in impl4 for r in io["requests"] if r[3] == "place" and r[5] is False)})
+    for i, w in bbad3[:2]:
+        ck.fail("C01-bound", "under max_selection_exposure=%s and the default max_live_trade_count=1 (re-used trades / a transaction sent in instalments) the strategy's worst-case loss on a selection reached %.2f" % (scs3[i]["_limit"] / 100, w),
+                {"scenario": scs3[i], "worst_seen": w, "how": "harness/impl/simlib.py on the real FlumineSimulation"})
     # ---- live execution: the decision on the next order of a selection after the previous one was acknowledged by the place response
     #      (with or without a fill), before and after the order stream has shown it
     import livegen
